@@ -1,48 +1,27 @@
 //! C10: concurrent callers on clones of one endpoint get their own replies.
+//!
+//! Every public operation of the three endpoints can be drawn (any method may be the one whose
+//! critical section is broken), not only a hand-picked few.
 
 use std::os::unix::io::AsRawFd;
 use std::sync::{Arc, Mutex};
 
-use vhost::vhost_user::gpu_message::*;
-use vhost::vhost_user::message::{VhostUserConfigFlags, VhostUserHeaderFlag, VhostUserProtocolFeatures, VhostUserSharedMsg};
-use vhost::vhost_user::{Backend, Frontend, GpuBackend, VhostUserFrontend, VhostUserFrontendReqHandler};
+use vhost::vhost_user::message::VhostUserHeaderFlag;
+use vhost::vhost_user::{Backend, Frontend, GpuBackend, VhostUserFrontend};
 use vhost::VhostBackend;
-use vm_memory::ByteValued;
 
+use super::client::{self, gen_greq, gpu_call, GpuOk, Target, N_GPU};
+use super::fe::{gen_api_req, MAXQ};
 use super::*;
 use crate::fdu;
+use crate::rec::{be_call, fe_call, FeOk, Lent};
+use crate::rng::{fnv, Tape, FNV0};
 use crate::sched::{self, Sim, Violation};
-use crate::spec::{self, fr, gr, pf};
+use crate::spec::{self, fr, pf, BReq, FReq, GReq, ReplyRule};
 
-#[derive(Clone, Debug)]
-enum Op {
-    // frontend
-    GetVringBase(u32),
-    GetConfig(u32, u32),
-    GetFeatures,
-    SetVringNum(u32, u16),
-    SetVringBase(u32, u16),
-    // proxy
-    ShObjAdd([u8; 16]),
-    ShObjRemove([u8; 16]),
-    // gpu
-    GetEdid(u32),
-    GetDisplayInfo,
-    DmabufUpdate(u32),
-    SetScanout(u32),
-    CursorPos(u32),
-}
-
-fn vnum(idx: u32) -> u32 {
-    7000 + 13 * idx
-}
-fn cfg_byte(off: u32) -> u8 {
-    (off as u8) ^ 0x5a
-}
-fn edid_byte(id: u32) -> u8 {
-    (id as u8).wrapping_mul(3).wrapping_add(1)
-}
 const FEATURES: u64 = spec::VHOST_USER_F_PROTOCOL_FEATURES | 0x1234_0000_0000;
+/// every protocol feature bit that gates an operation, plus REPLY_ACK when wanted
+const ALL_PROTO: u64 = 0x3f_ffff & !pf::XEN_MMAP & !pf::REPLY_ACK;
 
 pub fn def() -> PropDef {
     PropDef {
@@ -51,7 +30,7 @@ pub fn def() -> PropDef {
         quick_runs: 45_000,
         thorough_runs: 1_500_000,
         level: "exploration",
-        rule: "endpoint kind by index%3 (Frontend, Backend proxy with REPLY_ACK, GpuBackend); 2-3 caller tasks share clones and issue 1-3 calls each from a mix of reply-bearing, acknowledged and fire-and-forget operations with caller-unique arguments; the raw peer reads one request, yields 1-4 times, requires FIONREAD == 0 before answering a reply-bearing or acknowledged request, and answers with a value derived from the request's identity; schedules: uniform random, PCT (d <= 3) and sticky, with forced switches after the send / lock sync points; distinct = distinct (workload tape, interleaving, fault trace); non-trivial = at least one scheduling step had >= 2 runnable tasks",
+        rule: "endpoint kind by index%3 (Frontend, Backend proxy with REPLY_ACK, GpuBackend); 2-3 caller tasks (2-4 in the thorough tier) share clones and issue 1-3 (1-5) calls each, drawn from ALL public operations of the endpoint (29 Frontend operations, 5 proxy requests, 12 GPU requests) with drawn arguments; the raw peer decodes each request with the independent codec, yields 1-4 times, requires FIONREAD == 0 before answering a reply-bearing or acknowledged request, and answers with the specification's reply whose values are derived from the request bytes; every call must return success with the value belonging to its own request; schedules: uniform random, PCT (d <= 3) and sticky, with forced switches after the send / lock / recv sync points; distinct = distinct (workload tape, interleaving, fault trace); non-trivial = at least one scheduling step had >= 2 runnable tasks",
         assumptions: ASSUME,
         real: REAL_W,
         stubs: STUB_W,
@@ -59,6 +38,19 @@ pub fn def() -> PropDef {
         sweep_desc: "",
         panic_prop: "C10",
     }
+}
+
+#[derive(Clone, Debug)]
+enum Op {
+    Fe(FReq),
+    Proxy(BReq),
+    Gpu(GReq),
+}
+
+fn hash_bytes(b: &[u8]) -> u64 {
+    let mut h = FNV0;
+    fnv(&mut h, b);
+    h
 }
 
 fn run(sim: &Sim, cfg: &RunCfg) -> RunOut {
@@ -71,36 +63,31 @@ fn run(sim: &Sim, cfg: &RunCfg) -> RunOut {
         let need_reply = t.chance(2, 3);
         let reply_ack = t.chance(2, 3);
         let mut plans: Vec<Vec<Op>> = Vec::new();
-        for c in 0..n {
+        for _c in 0..n {
             let k = t.range(1, if deep { 5 } else { 3 });
             let mut v = Vec::new();
-            for j in 0..k {
-                let tag = (c as u32) * 8 + j as u32;
+            for _ in 0..k {
                 v.push(match kind {
-                    0 => match t.draw(5) {
-                        0 => Op::GetVringBase(c as u32),
-                        1 => Op::GetConfig(0x100 + tag * 4, 1 + t.draw(8) as u32),
-                        2 => Op::GetFeatures,
-                        3 => Op::SetVringNum(c as u32, 100 + tag as u16),
-                        _ => Op::SetVringBase(c as u32, 200 + tag as u16),
-                    },
-                    1 => {
-                        let mut u = [0x11u8; 16];
-                        u[0] = tag as u8;
-                        u[1] = t.draw(256) as u8;
-                        if t.chance(1, 2) {
-                            Op::ShObjAdd(u)
-                        } else {
-                            Op::ShObjRemove(u)
+                    0 => {
+                        // every frontend operation except the ones that renegotiate features
+                        let mut typ = t.draw(super::server::N_FREQ_TYPES);
+                        while matches!(typ, 1 | 14 | 22) {
+                            typ = t.draw(super::server::N_FREQ_TYPES);
                         }
+                        Op::Fe(gen_api_req(t, typ))
                     }
-                    _ => match t.draw(5) {
-                        0 => Op::GetEdid(tag),
-                        1 => Op::GetDisplayInfo,
-                        2 => Op::DmabufUpdate(tag),
-                        3 => Op::SetScanout(tag),
-                        _ => Op::CursorPos(tag),
-                    },
+                    1 => {
+                        let k = t.draw(super::breq::N_BREQ);
+                        Op::Proxy(super::breq::gen_breq(t, k))
+                    }
+                    _ => {
+                        let k = t.draw(N_GPU);
+                        let mut g = gen_greq(t, k);
+                        if let GReq::Update { data, .. } = &mut g {
+                            data.truncate(2048);
+                        }
+                        Op::Gpu(g)
+                    }
                 });
             }
             plans.push(v);
@@ -110,8 +97,20 @@ fn run(sim: &Sim, cfg: &RunCfg) -> RunOut {
         (n, need_reply, reply_ack, plans, holds)
     });
     let total: usize = plans.iter().map(|p| p.len()).sum();
+    let names: Vec<Vec<&str>> = plans
+        .iter()
+        .map(|p| {
+            p.iter()
+                .map(|o| match o {
+                    Op::Fe(r) => r.name(),
+                    Op::Proxy(r) => r.name(),
+                    Op::Gpu(r) => r.name(),
+                })
+                .collect()
+        })
+        .collect();
     let desc = format!(
-        "kind={} callers={ncallers} NEED_REPLY={need_reply} REPLY_ACK={reply_ack} plans={plans:?}",
+        "kind={} callers={ncallers} NEED_REPLY={need_reply} REPLY_ACK={reply_ack} plans={names:?}",
         ["Frontend", "Backend proxy", "GpuBackend"][kind as usize]
     );
     crate::runner::set_desc(&desc);
@@ -119,16 +118,16 @@ fn run(sim: &Sim, cfg: &RunCfg) -> RunOut {
     sim.label_fd(cl.as_raw_fd(), "client");
     sim.label_fd(peer_sock.as_raw_fd(), "peer");
     let n_prefix = if kind == 0 { 4 } else { 0 };
-    let ack_on = match kind {
-        0 => need_reply && reply_ack,
-        1 => true,
-        _ => false,
-    };
+    let protos = ALL_PROTO | if reply_ack { pf::REPLY_ACK } else { 0 };
     let peer_err = Arc::new(Mutex::new(None::<Violation>));
     let pe = peer_err.clone();
+    // reply bytes the peer produced, keyed by the hash of the request bytes
+    let answers: Arc<Mutex<Vec<(u64, Vec<u8>, usize)>>> = Arc::new(Mutex::new(Vec::new()));
+    let ans2 = answers.clone();
     let peer = sim.spawn("peer", "peer", move || {
         let sock = peer_sock;
         let fd = sock.as_raw_fd();
+        let pool: Vec<std::fs::File> = (0..2).map(|i| fdu::memfd(&format!("c10fd{i}"), 4096)).collect();
         let mut hold_i = 0usize;
         for m in 0..(n_prefix + total) {
             let (h, hf) = match fdu::raw_recv_exact(fd, spec::HDR, "peer.recv") {
@@ -137,55 +136,59 @@ fn run(sim: &Sim, cfg: &RunCfg) -> RunOut {
             };
             drop(hf);
             let hdr = spec::parse_hdr(&h);
-            let (body, _bf) = match fdu::raw_recv_exact(fd, hdr.size as usize, "peer.recv") {
+            let (body, bf) = match fdu::raw_recv_exact(fd, hdr.size as usize, "peer.recv") {
                 Ok(x) => x,
                 _ => break,
             };
-            // what does the protocol prescribe as answer?
-            let gpu = kind == 2;
-            let reply: Option<Vec<u8>> = if gpu {
-                match hdr.code {
-                    gr::GET_EDID => {
-                        let id = spec::g32(&body, 0);
-                        let mut b = vec![0u8; gr::EDID_RESP_SIZE];
-                        for x in b.iter_mut() {
-                            *x = edid_byte(id);
+            drop(bf);
+            let mut key = h.clone();
+            key.extend_from_slice(&body);
+            let khash = hash_bytes(&key);
+            // what does the protocol prescribe as answer? values derive from the request bytes
+            let mut t = Tape::generating(khash, 77);
+            let (reply, nfds): (Option<Vec<u8>>, usize) = match kind {
+                2 => {
+                    let g = match hdr.code {
+                        spec::gr::GET_PROTOCOL_FEATURES => Some(GReq::GetProtocolFeatures),
+                        spec::gr::GET_DISPLAY_INFO => Some(GReq::GetDisplayInfo),
+                        spec::gr::GET_EDID => Some(GReq::GetEdid { scanout_id: 0 }),
+                        spec::gr::DMABUF_UPDATE => Some(GReq::DmabufUpdate { scanout_id: 0, x: 0, y: 0, width: 0, height: 0 }),
+                        _ => None,
+                    };
+                    match g {
+                        Some(g) => {
+                            let (b, n) = client::correct_reply(&mut t, &Target::Gpu(g));
+                            (Some(b), n)
                         }
-                        Some(b)
-                    }
-                    gr::GET_DISPLAY_INFO => Some(vec![0x77; gr::DISPLAY_INFO_SIZE]),
-                    gr::DMABUF_UPDATE => Some(vec![]),
-                    _ => None,
-                }
-            } else if kind == 1 {
-                // ack value: derived from the uuid so that each caller can tell its own answer
-                Some(((body[1] & 1) as u64).to_le_bytes().to_vec())
-            } else {
-                match hdr.code {
-                    fr::GET_FEATURES => Some(FEATURES.to_le_bytes().to_vec()),
-                    fr::GET_PROTOCOL_FEATURES => Some((pf::CONFIG | if reply_ack { pf::REPLY_ACK } else { 0 }).to_le_bytes().to_vec()),
-                    fr::GET_VRING_BASE => {
-                        let idx = spec::g32(&body, 0);
-                        let mut b = Vec::new();
-                        spec::p32(&mut b, idx);
-                        spec::p32(&mut b, vnum(idx));
-                        Some(b)
-                    }
-                    fr::GET_CONFIG => {
-                        let off = spec::g32(&body, 0);
-                        let size = spec::g32(&body, 4);
-                        let mut b = body[..12].to_vec();
-                        b.extend(std::iter::repeat(cfg_byte(off)).take(size as usize));
-                        Some(b)
-                    }
-                    _ => {
-                        if m >= n_prefix && ack_on && hdr.flags & spec::F_NEED_REPLY != 0 {
-                            Some(0u64.to_le_bytes().to_vec())
-                        } else {
-                            None
-                        }
+                        None => (None, 0),
                     }
                 }
+                1 => {
+                    // ack value: low bit of a request byte, so that each caller can tell its own
+                    let v = (body.get(1).copied().unwrap_or(0) & 1) as u64;
+                    (Some(spec::message(hdr.code, spec::VERSION | spec::F_REPLY, &v.to_le_bytes())), 0)
+                }
+                _ => match hdr.code {
+                    fr::GET_FEATURES => (Some(spec::message(hdr.code, spec::VERSION | spec::F_REPLY, &FEATURES.to_le_bytes())), 0),
+                    fr::GET_PROTOCOL_FEATURES => (Some(spec::message(hdr.code, spec::VERSION | spec::F_REPLY, &protos.to_le_bytes())), 0),
+                    fr::GET_QUEUE_NUM => (Some(spec::message(hdr.code, spec::VERSION | spec::F_REPLY, &MAXQ.to_le_bytes())), 0),
+                    _ => match FReq::decode_prefix(hdr.code, &body) {
+                        Some(req) => match req.reply_rule() {
+                            ReplyRule::Reply => {
+                                let (b, n) = client::correct_reply(&mut t, &Target::Fe(req));
+                                (Some(b), n)
+                            }
+                            ReplyRule::Ack => {
+                                if m >= n_prefix && reply_ack && hdr.flags & spec::F_NEED_REPLY != 0 {
+                                    (Some(spec::message(hdr.code, spec::VERSION | spec::F_REPLY, &0u64.to_le_bytes())), 0)
+                                } else {
+                                    (None, 0)
+                                }
+                            }
+                        },
+                        None => (None, 0),
+                    },
+                },
             };
             if let Some(b) = reply {
                 // hold point: let any other caller run while the request is outstanding
@@ -204,25 +207,30 @@ fn run(sim: &Sim, cfg: &RunCfg) -> RunOut {
                     ));
                     break;
                 }
-                let flags = if gpu { gr::F_REPLY } else { spec::VERSION | spec::F_REPLY };
-                let msg = spec::message(hdr.code, flags, &b);
-                let _ = fdu::raw_send_segmented(fd, &msg, &[], &[], 0);
+                ans2.lock().unwrap().push((khash, b.clone(), nfds));
+                let fds: Vec<i32> = pool.iter().take(nfds).map(|f| f.as_raw_fd()).collect();
+                let _ = fdu::raw_send_segmented(fd, &b, &[], &fds, 0);
             }
         }
         sched::point("peer.close");
         drop(sock);
     });
     let bad = Arc::new(Mutex::new(None::<Violation>));
+    let flag = |bad: &Arc<Mutex<Option<Violation>>>, c: usize, what: String, e: String| {
+        let mut g = bad.lock().unwrap();
+        if g.is_none() {
+            *g = Some(Violation::new("C10", "foreign_or_missing_reply", what.split(['(', ' ', '{']).next().unwrap_or(""), format!("caller {c} {what}: {e}")));
+        }
+    };
     let mut tasks = Vec::new();
     match kind {
         0 => {
-            let mut fe = Frontend::from_stream(cl, 8);
+            let mut fe = Frontend::from_stream(cl, MAXQ);
             // negotiation by the harness task before the callers start
             let f = fe.get_features().expect("prefix get_features");
             fe.set_features(f).expect("prefix set_features");
             let p = fe.get_protocol_features().expect("prefix get_protocol_features");
             fe.set_protocol_features(p).expect("prefix set_protocol_features");
-            let _ = VhostUserProtocolFeatures::CONFIG;
             if need_reply {
                 fe.set_hdr_flags(VhostUserHeaderFlag::NEED_REPLY);
             }
@@ -230,35 +238,38 @@ fn run(sim: &Sim, cfg: &RunCfg) -> RunOut {
                 let mut fe = fe.clone();
                 let plan = plan.clone();
                 let bad = bad.clone();
+                let answers = answers.clone();
                 tasks.push(sim.spawn(&format!("caller{c}"), "caller", move || {
                     for op in plan {
-                        let r: Result<(), String> = match &op {
-                            Op::GetVringBase(i) => match fe.get_vring_base(*i as usize) {
-                                Ok(v) if v == vnum(*i) => Ok(()),
-                                other => Err(format!("{other:?}, own answer is {}", vnum(*i))),
-                            },
-                            Op::GetConfig(off, size) => {
-                                let buf = vec![0u8; *size as usize];
-                                match fe.get_config(*off, *size, VhostUserConfigFlags::empty(), &buf) {
-                                    Ok((c, p)) if { c.offset } == *off && p.iter().all(|b| *b == cfg_byte(*off)) => Ok(()),
-                                    Ok((c, p)) => Err(format!("config reply offset {:#x} payload {:02x?}, own offset {off:#x}", { c.offset }, p)),
-                                    Err(e) => Err(format!("{e:?}")),
+                        let req = match &op {
+                            Op::Fe(r) => r.clone(),
+                            _ => continue,
+                        };
+                        let lent = Lent::for_req(&req);
+                        match fe_call(&mut fe, &req, &lent) {
+                            None => {}
+                            Some(Err(e)) => {
+                                flag(&bad, c, format!("{}", req.name()), format!("{e:?}"));
+                                break;
+                            }
+                            Some(Ok(v)) => {
+                                // the value must be the one the peer produced for *this* request
+                                let wire = req.wire(need_reply);
+                                let kh = hash_bytes(&wire);
+                                let ans = answers.lock().unwrap().iter().find(|(k, _, _)| *k == kh).map(|(_, b, _)| b.clone());
+                                if let (Some(b), FeOk::U64(x)) = (&ans, &v) {
+                                    if b.len() == spec::HDR + 8 && !matches!(req, FReq::GetVringBase { .. } | FReq::GetProtocolFeatures) && spec::g64(b, spec::HDR) != *x {
+                                        flag(&bad, c, format!("{}", req.name()), format!("returned {x:#x}, the peer answered this request with {:#x}", spec::g64(b, spec::HDR)));
+                                        break;
+                                    }
+                                }
+                                if let (Some(b), FeOk::Config(_, _, _, p)) = (&ans, &v) {
+                                    if b[spec::HDR + 12..] != p[..] {
+                                        flag(&bad, c, format!("{}", req.name()), "configuration payload of another request".into());
+                                        break;
+                                    }
                                 }
                             }
-                            Op::GetFeatures => match fe.get_features() {
-                                Ok(v) if v == FEATURES => Ok(()),
-                                other => Err(format!("{other:?}")),
-                            },
-                            Op::SetVringNum(i, n) => fe.set_vring_num(*i as usize, *n).map_err(|e| format!("{e:?}")),
-                            Op::SetVringBase(i, n) => fe.set_vring_base(*i as usize, *n).map_err(|e| format!("{e:?}")),
-                            _ => Ok(()),
-                        };
-                        if let Err(e) = r {
-                            let mut g = bad.lock().unwrap();
-                            if g.is_none() {
-                                *g = Some(Violation::new("C10", "foreign_or_missing_reply", format!("{op:?}").split('(').next().unwrap_or(""), format!("caller {c} {op:?}: {e}")));
-                            }
-                            break;
                         }
                     }
                     drop(fe);
@@ -270,23 +281,22 @@ fn run(sim: &Sim, cfg: &RunCfg) -> RunOut {
             let be = Backend::from_stream(cl);
             be.set_reply_ack_flag(true);
             be.set_shared_object_flag(true);
+            be.set_shmem_flag(true);
             for (c, plan) in plans.iter().enumerate() {
                 let be = be.clone();
                 let plan = plan.clone();
                 let bad = bad.clone();
                 tasks.push(sim.spawn(&format!("caller{c}"), "caller", move || {
                     for op in plan {
-                        let (u, r) = match &op {
-                            Op::ShObjAdd(u) => (*u, be.shared_object_add(&VhostUserSharedMsg { uuid: uuid::Uuid::from_bytes(*u) })),
-                            Op::ShObjRemove(u) => (*u, be.shared_object_remove(&VhostUserSharedMsg { uuid: uuid::Uuid::from_bytes(*u) })),
+                        let req = match &op {
+                            Op::Proxy(r) => r.clone(),
                             _ => continue,
                         };
-                        let want_ok = u[1] & 1 == 0;
+                        let f = if req.nfds() > 0 { Some(fdu::memfd("c10lent", 4096)) } else { None };
+                        let r = be_call(&be, &req, f.as_ref());
+                        let want_ok = req.body().get(1).copied().unwrap_or(0) & 1 == 0;
                         if r.is_ok() != want_ok {
-                            let mut g = bad.lock().unwrap();
-                            if g.is_none() {
-                                *g = Some(Violation::new("C10", "foreign_or_missing_reply", "shared_object", format!("caller {c} {op:?}: got {r:?}, own answer is ok={want_ok}")));
-                            }
+                            flag(&bad, c, req.name().to_string(), format!("got {r:?}, own answer is ok={want_ok}"));
                             break;
                         }
                     }
@@ -301,50 +311,31 @@ fn run(sim: &Sim, cfg: &RunCfg) -> RunOut {
                 let g = g.clone();
                 let plan = plan.clone();
                 let bad = bad.clone();
+                let answers = answers.clone();
                 tasks.push(sim.spawn(&format!("caller{c}"), "caller", move || {
                     for op in plan {
-                        let r: Result<(), String> = match &op {
-                            Op::GetEdid(id) => match g.get_edid(&VhostUserGpuEdidRequest { scanout_id: *id }) {
-                                Ok(e) if e.as_slice().iter().all(|b| *b == edid_byte(*id)) => Ok(()),
-                                Ok(e) => Err(format!("edid reply filled with {:#x}, own is {:#x}", e.as_slice()[0], edid_byte(*id))),
-                                Err(e) => Err(format!("{e:?}")),
-                            },
-                            Op::GetDisplayInfo => match g.get_display_info() {
-                                Ok(d) if d.as_slice().iter().all(|b| *b == 0x77) => Ok(()),
-                                Ok(d) => Err(format!("display info filled with {:#x}", d.as_slice()[0])),
-                                Err(e) => Err(format!("{e:?}")),
-                            },
-                            Op::DmabufUpdate(id) => g
-                                .update_dmabuf_scanout(&VhostUserGpuUpdate {
-                                    scanout_id: *id,
-                                    x: 1,
-                                    y: 2,
-                                    width: 3,
-                                    height: 4,
-                                })
-                                .map_err(|e| format!("{e:?}")),
-                            Op::SetScanout(id) => g
-                                .set_scanout(&VhostUserGpuScanout {
-                                    scanout_id: *id,
-                                    width: 5,
-                                    height: 6,
-                                })
-                                .map_err(|e| format!("{e:?}")),
-                            Op::CursorPos(id) => g
-                                .cursor_pos(&VhostUserGpuCursorPos {
-                                    scanout_id: *id,
-                                    x: 7,
-                                    y: 8,
-                                })
-                                .map_err(|e| format!("{e:?}")),
-                            _ => Ok(()),
+                        let req = match &op {
+                            Op::Gpu(r) => r.clone(),
+                            _ => continue,
                         };
-                        if let Err(e) = r {
-                            let mut gd = bad.lock().unwrap();
-                            if gd.is_none() {
-                                *gd = Some(Violation::new("C10", "foreign_or_missing_reply", format!("{op:?}").split('(').next().unwrap_or(""), format!("caller {c} {op:?}: {e}")));
+                        let f = if req.nfds() > 0 { Some(fdu::memfd("c10lent", 4096)) } else { None };
+                        match gpu_call(&g, &req, f.as_ref()) {
+                            Err(e) => {
+                                flag(&bad, c, req.name().to_string(), format!("{e:?}"));
+                                break;
                             }
-                            break;
+                            Ok(GpuOk::Bytes(b)) => {
+                                let wire = spec::message(req.code(), 0, &req.body());
+                                let kh = hash_bytes(&wire);
+                                let ans = answers.lock().unwrap().iter().find(|(k, _, _)| *k == kh).map(|(_, b, _)| b.clone());
+                                if let Some(a) = ans {
+                                    if a[spec::HDR..] != b[..] {
+                                        flag(&bad, c, req.name().to_string(), "returned the reply of another request".into());
+                                        break;
+                                    }
+                                }
+                            }
+                            Ok(GpuOk::Unit) => {}
                         }
                     }
                     drop(g);
@@ -363,6 +354,8 @@ fn run(sim: &Sim, cfg: &RunCfg) -> RunOut {
     if let Some(v) = bad.lock().unwrap().take() {
         sim.violation(v);
     }
+    answers.lock().unwrap().clear();
+    let _ = <Frontend as VhostUserFrontend>::get_queue_num;
     RunOut {
         desc,
         nontrivial: false,
